@@ -374,6 +374,9 @@ def shapes():
         "s_po": lambda: S("named", [F("a", "Po"), F("b", "u8")], "s_po"),
         "s_nr": lambda: S("named", [F("a", "u8"), F("b", "Nr"), F("c", "u8")], "s_nr"),
         "e_nr": lambda: TypeSpec("enum", [Variant("A", "tuple", [F(None, "Nr")]), Variant("B", "unit", [])], shape="e_nr"),
+        # an explicit type-level bound() that stops the bound resolution (nothing is needed for these concrete fields): must not change what is hashed
+        "s_hashbound": lambda: _with_attrs(S("named", [F("a", "u8"), F("b", "i8"), F("c", "u8")], "s_hashbound"), ["#[hash(bound())]"]),
+        "e_hashbound": lambda: _with_attrs(TypeSpec("enum", [Variant("A", "unit", []), Variant("B", "tuple", [F(None, "u8"), F(None, "i8")])], shape="e_hashbound"), ["#[hash(bound())]"]),
         # field types that merely mention PhantomData / are zero-sized markers next to real data (no attribute is put on them: they have no key)
         "s_marker": lambda: S("named", [F("a", "u8"), F("m", "(u8, core::marker::PhantomData<u16>)"), F("o", "Option<core::marker::PhantomData<u8>>"), F("b", "u8")], "s_marker"),
         # explicit discriminants that disagree with the declaration order (the documentation orders by position)
@@ -383,6 +386,11 @@ def shapes():
                                                    shape="e_disc_data"), [1, None, 0], repr_="#[repr(u8)]"),
     }
     return d
+
+
+def _with_attrs(t, attrs):
+    t.extra_attrs += attrs
+    return t
 
 
 def _with_disc(t, discs, repr_=None):
